@@ -356,7 +356,10 @@ func (d *DBFT[H]) onPrepareRequest(msg ConsensusPayload[H]) {
 	d.updateExistingPayloads(msg)
 	d.PreparationPayloads[msg.ValidatorIndex()] = msg
 
-	if !d.hasAllTransactions() || !d.createAndCheckBlock() || d.Context.WatchOnly() {
+	// A primary can get its own PrepareRequest back from a recovery message
+	// after a restart, it must not answer it with a PrepareResponse (that
+	// would also replace the request in its own preparation slot).
+	if !d.hasAllTransactions() || !d.createAndCheckBlock() || d.IsPrimary() || d.Context.WatchOnly() {
 		return
 	}
 
